@@ -109,13 +109,27 @@ impl PathSelector {
         if Self::is_absolute(&pattern) {
             pattern
         } else {
+            // The scanned paths have no `.` and `..` components: `./a` means the same as `a`,
+            // and `../a` is relative to the parent of the base directory.
+            let current_dir = Self::append_sep(".".to_string());
+            let parent_dir = Self::append_sep("..".to_string());
+            let mut base_dir = base_dir;
+            let mut pattern = pattern;
+            loop {
+                if let Some(stripped) = pattern.strip_literal_prefix(current_dir.as_str()) {
+                    pattern = stripped;
+                } else if let Some(stripped) = pattern.strip_literal_prefix(parent_dir.as_str()) {
+                    pattern = stripped;
+                    base_dir = base_dir.parent().map_or(base_dir, |p| p.as_ref());
+                } else {
+                    break;
+                }
+            }
             // The paths are matched as lossy strings as well, so the replacement characters
             // standing for the bytes that are not valid UTF-8 match each other.
             let base_dir_pat = base_dir.to_string_lossy();
             let base_dir_pat = Pattern::literal(Self::append_sep(base_dir_pat).as_str());
-            // `./a` means the same as `a`, and the scanned paths have no `.` components
-            let current_dir = Self::append_sep(".".to_string());
-            base_dir_pat + pattern.strip_literal_prefix(current_dir.as_str())
+            base_dir_pat + pattern
         }
     }
 
